@@ -563,6 +563,13 @@ class Function:
                 if nm not in accessors:
                     tgt = n.call_object()
             if tgt is None:
+                # a call whose target is not known here (callable parameter, function pointer, std::function) may re-enter
+                # the object: every fact about its members is stale afterwards
+                if (n.k == "CallExpr" and n.callee is None and not n.get("builtin")) or \
+                        (n.k == "CXXOperatorCallExpr" and n.callee and (n.callee.get("qn") or "").startswith("std::function")):
+                    loc = self.block_of(n)
+                    if loc is not None:
+                        out.append((loc[0], loc[1], ("field", "*")))
                 continue
             k = key_of(tgt)
             if k is None:
@@ -592,7 +599,8 @@ class Function:
         terms = self._terms(fact.cond)
         if not terms:
             return False
-        ws = [w for w in self._writes() if w[2] in terms]
+        anyfield = any(t[0] == "field" for t in terms)
+        ws = [w for w in self._writes() if w[2] in terms or (anyfield and w[2] == ("field", "*"))]
         if not ws:
             return False
         for (wb, wi, k) in ws:
@@ -613,6 +621,29 @@ class Function:
                 return True
         return False
 
+    def stale_flag(self, ref, use):
+        """`ref` names a single-definition local flag that is tested at node `use`: is something its initialiser reads
+        written (or may an unknown call re-enter) on a path between the definition and the test?  -> the write's
+        (block, index) or None"""
+        d = _single_def(ref)
+        if d is None:
+            return None
+        dloc, uloc = self.block_of(d), self.block_of(use)
+        if dloc is None or uloc is None:
+            return None
+        terms = self._terms(d)
+        anyfield = any(t[0] == "field" for t in terms)
+        for (wb, wi, k) in self._writes():
+            if not (k in terms or (anyfield and k == ("field", "*"))):
+                continue
+            after_def = (wb == dloc[0] and wi > dloc[1]) or (wb != dloc[0] and wb in self.reachable(dloc[0]))
+            before_use = (wb == uloc[0] and wi < uloc[1]) or (wb != uloc[0] and uloc[0] in self.reachable(wb))
+            if wb == dloc[0] == uloc[0]:
+                after_def, before_use = wi > dloc[1], wi < uloc[1]
+            if after_def and before_use:
+                return (wb, wi)
+        return None
+
     def facts_at(self, node):
         """facts that hold whenever `node` is evaluated.  Conditions are block terminators, so the facts of the
         node's block are exactly those established before the block was entered."""
@@ -626,8 +657,9 @@ class Function:
             terms = self._terms(fact.cond)
             dead = False
             if terms:
+                anyfield = any(t[0] == "field" for t in terms)
                 for (wb, wi, k) in self._writes():
-                    if wb == loc[0] and wi < loc[1] and k in terms:
+                    if wb == loc[0] and wi < loc[1] and (k in terms or (anyfield and k == ("field", "*"))):
                         dead = True
                         break
             if not dead:
